@@ -29,8 +29,20 @@ PAYLOAD = {"f": b"F" * 7, "sub/g": b"G" * 9}
 NSCN = 14
 
 
-def _setup(scn):
-    """returns (sim, op thunk, old sp, new sp or None, removal?, project holding the result)"""
+def _setup(scn, cache=False):
+    """returns (sim, op thunk, removal?); cache: both projects carry a persistent state point cache listing every job present before the
+    operation (update_cache() was run earlier) - check() after the restart must look at the files, not at the cache"""
+    s, op, removal = _setup0(scn)
+    if cache:
+        for p in ("/p", "/q"):
+            try:
+                memfs.mkproject(s.fs, p).update_cache()
+            except Exception:  # noqa  (scenarios that start from a damaged workspace: no cache can be written)
+                pass
+    return s, op, removal
+
+
+def _setup0(scn):
     s = ws.Sim(paths=("/p", "/q"))
     fs = s.fs
     s.add_job("/p", {"a": 5}, doc={"other": 1}, files={"o": b"O"})
@@ -142,8 +154,8 @@ def _region(reg):
     return ["/p/workspace/" + old_id, "/p/workspace/" + new_id, "/q/workspace/" + old_id, "/p/workspace", "/q/workspace"][reg]
 
 
-def _case(scn, mode, k, t, e, k2=None, rev=False, reg=0):
-    s, op, removal = _setup(scn)
+def _case(scn, mode, k, t, e, k2=None, rev=False, reg=0, cache=False):
+    s, op, removal = _setup(scn, cache)
     fs = s.fs
     fs.list_reverse = rev
     try:
@@ -231,12 +243,12 @@ def _case(scn, mode, k, t, e, k2=None, rev=False, reg=0):
         # P5: a handled I/O error propagates; never a silent partial success
         if mode in (3, 5) and plan.fired and not crashed:
             if exc is None:
-                good = _success_view(scn)
+                good = _success_view(scn, cache)
                 if _strip_tmp(post) != _strip_tmp(good):
                     problems.append(("silent partial success: call returned normally after a failed step but the result differs from a fault-free run", plan.fired))
             else:
                 any_invalid = any(_valid(files, d) is None for p in post for d, files in post[p].items())
-                if not removal and not any_invalid and _strip_tmp(post) != _strip_tmp(pre) and _strip_tmp(post) != _strip_tmp(_success_view(scn)):
+                if not removal and not any_invalid and _strip_tmp(post) != _strip_tmp(pre) and _strip_tmp(post) != _strip_tmp(_success_view(scn, cache)):
                     if scn == 10:
                         pass  # a partial clone is an invalid directory unless the state point file was copied first -> covered by any_invalid/forged checks
                     problems.append(("exception raised but the state is neither the pre-state, nor the success state, nor check()-detectable", type(exc).__name__, plan.fired))
@@ -249,34 +261,34 @@ def _case(scn, mode, k, t, e, k2=None, rev=False, reg=0):
 _SUCCESS = {}
 
 
-def _success_view(scn):
-    if scn not in _SUCCESS:
+def _success_view(scn, cache=False):
+    if (scn, cache) not in _SUCCESS:
         from vflib.hutil import reset_buffers
         reset_buffers()
-        s, op, removal = _setup(scn)
+        s, op, removal = _setup(scn, cache)
         try:
             try:
                 op()
             except Exception:  # noqa  (scenarios that fail by design: collision)
                 pass
-            _SUCCESS[scn] = _view(s.fs)
+            _SUCCESS[(scn, cache)] = _view(s.fs)
         finally:
             s.close()
-    return _SUCCESS[scn]
+    return _SUCCESS[(scn, cache)]
 
 
 def _strip_tmp(view):
     return {p: {d: {r: c for r, c in files.items() if not (r.split("/")[-1].startswith("._") or r.endswith("~"))} for d, files in dirs.items()} for p, dirs in view.items()}
 
 
-def h_fault(scn: int, mode: int, k: int, t: int, e: int, rev: bool):
+def h_fault(scn: int, mode: int, k: int, t: int, e: int, rev: bool, cache: bool):
     """single crash / torn write / failing step at ANY step index k >= 0 of every lifecycle scenario; rev = directory listing order"""
     assert 0 <= scn <= NSCN and 1 <= mode <= 3 and 0 <= k and 0 <= t <= 2 and 0 <= e < 5 and part_ok(scn)
-    assert (mode == 2 or t == 0) and (mode == 3 or e == 0)
+    assert (mode == 2 or t == 0) and (mode == 3 or e == 0) and (not cache or not rev)
     fresh_path()
-    scn, mode, t, e, rev = ci(scn, 0, NSCN), ci(mode, 1, 3), pick([0, 1, 5], t), pick(ERRNOS, e), cb(rev)
+    scn, mode, t, e, rev, cache = ci(scn, 0, NSCN), ci(mode, 1, 3), pick([0, 1, 5], t), pick(ERRNOS, e), cb(rev), cb(cache)
     with nt():
-        r = _case(scn, mode, k, t, e, rev=rev)
+        r = _case(scn, mode, k, t, e, rev=rev, cache=cache)
     reached()
     assert r[0]
 
